@@ -25,7 +25,8 @@ C07 — no input can crash the host; errors are returned and leave the engine us
                               arity (`adjust_stack_for_multi_arity(..)?`); `pop_count` is never incremented for that frame
                               (the nested instance `call_with_instructions_and_reset_state` that would run the callee starts
                               its own count at 1).  The instruction models the failing check: frame pushed, argument pushed,
-                              `Err(ArityMismatch)`.  (A callback of the right arity is, for the counters, a value or a
+                              `Err(ArityMismatch)`.  (Proved in Nested.lean, which models the nested
+                              instance itself: a callback of the right arity is, for the counters, a value or a
                               `fail`: the nested instance pops what it pushed before it returns; an arity error of a
                               callback INSIDE a nested instance is consumed by the nested unwind loop, which leaves the
                               nested callee's frame — uncounted in the enclosing instance — behind: the same state.
@@ -251,7 +252,9 @@ structure SymMapOps (SM : Type) where
 
 /-- what the expansion / code generation of one program does, in order, before it succeeds or fails -/
 inductive BuildOp where
-  | requireModule (m : Name)                          -- a dependency is compiled: table + metadata
+  | requireModule (m : Name) (inScope : List Name)    -- a dependency is compiled: table + metadata; the macros it
+                                                      -- provides enter the global macro map
+                                                      -- (`global_macro_map.extend(in_scope_macros)` in compile_main)
   | defineMacro (n : Name)                            -- `(define-syntax n …)` at the top level of the program
   | failExpand                                        -- expansion / analysis / code generation returns `Err`
   deriving DecidableEq, Repr
@@ -264,7 +267,8 @@ inductive BuildResult where
 /-- `compile_main` up to the failure (or the end): effects of the ops -/
 def expandOps {SM} : List BuildOp → BuildState SM → BuildResult × BuildState SM
   | [], s => (.ok, s)
-  | .requireModule m :: rest, s => expandOps rest { s with modules := s.modules ++ [m], metadata := s.metadata ++ [m] }
+  | .requireModule m ms :: rest, s =>
+    expandOps rest { s with modules := s.modules ++ [m], metadata := s.metadata ++ [m], macros := s.macros ++ ms }
   | .defineMacro n :: rest, s => expandOps rest { s with macros := s.macros ++ [n] }
   | .failExpand :: _, s => (.err, s)
 
@@ -284,12 +288,15 @@ def build {SM} (ops : SymMapOps SM) (parseOk : Bool) (expand : List BuildOp) (de
   let snapshot := s.modules
   -- `compile_main`: `self.rollback_metadata = self.file_metadata.clone(); self.rollback_modules = Some(..)`
   let s1 := { s with rollbackMetadata := s.metadata, rollbackModules := some s.modules }
+  -- what a failed build does with the macro environment is read from the source (`Gen.buildRestoresMacros`,
+  -- translate/c07_unwind.py): given back from a snapshot, or left as the failed program made it
+  let giveBack (x : BuildState SM) : BuildState SM := if Gen.buildRestoresMacros then { x with macros := s.macros } else x
   match expandOps expand s1 with
-  | (.err, s2) => (.err, rollbackMetadata { s2 with modules := snapshot })
+  | (.err, s2) => (.err, giveBack (rollbackMetadata { s2 with modules := snapshot }))
   | (.ok, s2) =>
     let offset := ops.len s2.symbols
     let s3 := { s2 with symbols := defines.foldl ops.add s2.symbols }
     if refsResolve then (.ok, s3)
-    else (.err, rollbackMetadata { s3 with symbols := ops.rollBack s3.symbols offset })
+    else (.err, giveBack (rollbackMetadata { s3 with symbols := ops.rollBack s3.symbols offset }))
 
 end SteelVerif.C07
